@@ -46,38 +46,28 @@ def mkMat (rows : Mat) : Option Mat :=
       decide (-32768 ≤ je.2) && decide (je.2 ≤ 32767)))   -- assert!(i16::try_from(e).is_ok())
     then some rows else none
 
-/-- `x[k] += vj[k] as i64` over the `+1` entries of a row (lines 183-189) -/
-def accP1 (col : Nat → Nat) : Row → Int → Option Int
+/-- one of the three accumulation loops of a row (lines 183-189, 192-198, 203-209): the entries
+selected by `sel` (in input order) add `term (v[j]) e` to the `i64` accumulator, with the overflow
+check of the checked profile on the addition (`x -= a` is the same check as `x + (-a)` over ℤ) -/
+def accPass (sel : Int → Bool) (term : Nat → Int → Option Int) (col : Nat → Nat) :
+    Row → Int → Option Int
   | [], x => some x
   | (j, e) :: r, x =>
-    if e = 1 then
-      match chkI64 (x + asI64 (col j)) with
-      | none => none
-      | some x' => accP1 col r x'
-    else accP1 col r x
-
-/-- `x[k] -= vj[k] as i64` over the `-1` entries (lines 192-198) -/
-def accM1 (col : Nat → Nat) : Row → Int → Option Int
-  | [], x => some x
-  | (j, e) :: r, x =>
-    if e = -1 then
-      match chkI64 (x - asI64 (col j)) with
-      | none => none
-      | some x' => accM1 col r x'
-    else accM1 col r x
-
-/-- `x[k] += mij as i64 * vj[k] as i64` over the other entries (lines 203-209) -/
-def accX (col : Nat → Nat) : Row → Int → Option Int
-  | [], x => some x
-  | (j, e) :: r, x =>
-    if e ≠ 1 ∧ e ≠ -1 then
-      match chkI64 (e * asI64 (col j)) with
+    if sel e then
+      match term (col j) e with
       | none => none
       | some t =>
         match chkI64 (x + t) with
         | none => none
-        | some x' => accX col r x'
-    else accX col r x
+        | some x' => accPass sel term col r x'
+    else accPass sel term col r x
+
+/-- `x[k] += vj[k] as i64` over the `+1` entries -/
+def accP1 := accPass (fun e => e == 1) (fun a _ => some (asI64 a))
+/-- `x[k] -= vj[k] as i64` over the `-1` entries -/
+def accM1 := accPass (fun e => e == -1) (fun a _ => some (-asI64 a))
+/-- `x[k] += mij as i64 * vj[k] as i64` over the other entries (the product is checked too) -/
+def accX := accPass (fun e => e != 1 && e != -1) (fun a e => chkI64 (e * asI64 a))
 
 /-- `x.rem_euclid(p as i64) as u64` (line 212) -/
 def remEuclid (x : Int) (p : Nat) : Option Nat :=
